@@ -479,4 +479,43 @@ theorem bfgs_optimize_spec (B : ℝ) (len : Nat) (ns : List Nat) (hns : ns.Nodup
         · exact Or.inl (le_trans hle (hib.below hgb.2))
         · exact Or.inr ⟨sb, sa, hgb, hib.below hgb.2, hst, hlt, rfl⟩
 
+/-! ### a run of BFGS that ends above its starting value
+
+The same program text at `Rat` (exact arithmetic; the transcendental functions of that instance are
+never reached on this run): two parameters, `x0 ∈ [0, 10]` at its upper bound and `x1` free at 0, the
+objective `-10⁶ (x0 - 10) + 5·10⁻⁴ x1 - 2.9998 x1²` with its true derivatives.  `setDirection` replaces
+the component `+10⁶` of the Newton direction by `Up - p = -TINY` (the parameter is within `TINY` of its
+bound), the slope handed to the line search is `10⁶ · TINY - 2.5·10⁻⁷ > 0`, the first trial has the value
+`≈ 5·10⁻¹¹ > 0`, which the acceptance test `f ≤ fold + 10⁻⁴ λ slope` lets through; `doStep` then finds
+`f > currentValue_`, sets the tolerance flag and returns the higher value. -/
+namespace BfgsWitness
+
+def objective (pt : List Rat) : Rat :=
+  (0 - 1000000) * (pt.getD 0 0 - 10) + (5 / 10000) * pt.getD 1 0 - (29998 / 10000) * pt.getD 1 0 * pt.getD 1 0
+
+def deriv : Deriv Rat :=
+  { d1 := fun k pt => if k == 0 then 0 - 1000000 else (5 / 10000) - 2 * (29998 / 10000) * pt.getD 1 0,
+    d2 := fun k _ => if k == 0 then 0 else 0 - 2 * (29998 / 10000) }
+
+def params : PList Rat :=
+  [⟨0, ⟨10, 0, some ⟨.fin 0, .fin 10, true, true, 0⟩, false⟩⟩, ⟨1, ⟨0, 0, none, false⟩⟩]
+
+def start : St (Fn Rat) (Bfgs Rat) Rat :=
+  { core := freshCore 100 (1 / 1000000) 0, fn := ⟨[10, 0], []⟩, ext := Bfgs.fresh }
+
+/-- the list is feasible, `init` and `optimize` return, the value returned is above the value at the
+start, and the tolerance flag is set -/
+def increased : Bool :=
+  feasibleList params &&
+  match (bfgsAlgo (Fn.iface objective deriv none) 1000).init start params with
+  | .error _ => false
+  | .ok s1 =>
+    match (bfgsAlgo (Fn.iface objective deriv none) 1000).optimize 1000 s1 with
+    | .error _ => false
+    | .ok (s2, v) => decide (s1.core.cur = objective [10, 0]) && decide (objective [10, 0] < v) && s2.core.tol
+
+theorem increased_true : increased = true := by decide +kernel
+
+end BfgsWitness
+
 end Bpp.Optim
